@@ -152,7 +152,8 @@ func TestC33Roots(t *testing.T) {
 				}
 			},
 			"switchEpoch": func(t *rapid.T) {
-				next := store.GetEpoch() + idx.Epoch(rapid.IntRange(1, 3).Draw(t, "epochStep"))
+				// step 0 = the same epoch is started again from scratch (Reset allows any epoch number)
+				next := store.GetEpoch() + idx.Epoch(rapid.IntRange(0, 3).Draw(t, "epochStep"))
 				log = append(log, fmt.Sprintf("Reset(epoch=%d)", next))
 				if err := ord.Reset(next, vals); err != nil {
 					t.Fatalf("Reset: %v", err)
